@@ -71,11 +71,15 @@ def generate(seed, tier):
     ops = [common.gen_gv_op(rng)] if rng.random() < 0.85 else []
     w = {"pd": 8, "gv": 2, "bad": 2, "reseed": rng.choice([0, 1, 2]), "freeze": rng.choice([0, 1])}
     kinds = [k for k, c in w.items() for _ in range(c)]
+    last_n = 64
     for _ in range(rng.randint(4, 9)):
         k = rng.choice(kinds)
         if k == "pd":
             op = {"op": "pd"}
             op.update(gen_field(rng))
+            if rng.random() < 0.4:
+                op["n"] = last_n        # same record length as the previous (possibly rejected) call
+            last_n = op["n"]
             op.update({"r": rng.choice([1.0, 1, 0.5, rng.uniform(0.05, 1.0)]),
                        "T": rng.choice([300.0, 0, 77, rng.uniform(1, 400)]),
                        "R_load": rng.choice([50.0, 50, 1e3, rng.uniform(10, 1e4)]),
@@ -99,7 +103,9 @@ def generate(seed, tier):
                                                          "in_arr", "inc_words", "inc_words", "inc_words"]),
                         "w": rng.choice(["shot-ase", "thermal-ase", "only-ase", "all-all", "ase-shot-ase", "ase", "shot",
                                          "thermal", "shot-thermal", "ase-thermal-shot", "only", "ASE-ALL", "all-only",
-                                         "ase_only", "ase only", " all", ""])})
+                                         "ase_only", "ase only", " all", ""]),
+                        "n": rng.choice([last_n, last_n, 64])})
+            last_n = ops[-1]["n"]
         elif k == "reseed":
             ops.append({"op": "reseed", "s": rng.getrandbits(31)})
         elif k == "freeze":
@@ -258,6 +264,16 @@ class Bench:
             y0b = self._pd(x, op)
         tripped += list(z2.tripped)
         bypass = bool(tripped) or not np.array_equal(np.asarray(y0b.noise), np.asarray(y0.noise))
+        if bypass and not tripped:
+            # a draw that escapes the seam makes every execution differ; if a third zero twin reproduces the second
+            # exactly, nothing escapes and it is the FIRST call that carried something over from the history before
+            # it (state left behind by an earlier, possibly rejected, call): keep it and let the checks below judge it
+            with ScriptedRNG("zero") as z3:
+                y0c = self._pd(x, op)
+            if not z3.tripped and np.array_equal(np.asarray(y0c.noise), np.asarray(y0b.noise)) \
+                    and np.array_equal(np.asarray(y0c.signal), np.asarray(y0b.signal)):
+                bypass = False
+                self.rec.probe("first zero twin differs from two identical later ones (history carried in)")
         if tripped:
             self.rec.probe("rng tripwire: " + ",".join(sorted(set(tripped))))
 
@@ -480,7 +496,8 @@ class Bench:
 
     def op_bad(self, op):
         w = op["what"]
-        x = self.O(np.ones(64, dtype=complex) * 0.01)
+        # a rejected call must leave nothing behind for the next record of the same length
+        x = self.O(np.ones(int(op.get("n", 64)), dtype=complex) * 0.01)
         BW = 0.2 * self.gv.fs
         table = {
             "r0": (dict(r=0), ValueError), "r_neg": (dict(r=-0.5), ValueError), "r_big": (dict(r=1.5), ValueError),
